@@ -12,7 +12,7 @@ RULE = ('lattice: for every (format table, record kind, field) of the four live 
         'record drawn at once from the same per-field lattice (Hypothesis). Non-trivial = the plain %-formatted '
         'target is within one column of its width or wider, or the target is None with both neighbours present; '
         'distinct = distinct (table, kind, field, value) JSON.'
-        ' Also: every lattice value as the last one of a shorter list (trailing values left off); Hypothesis sequences of 2..6 records written through ONE file object (write_values) and read back through another (read_values).')
+        ' Also: every lattice value as the last one of a shorter list (trailing values left off); Hypothesis sequences of 2..6 records written through ONE file object (write_values) and read back through another (read_values); generated data models (gens/data.py) with 1..3 real fields anywhere (rock properties, block volumes, generator tables, time-step tables, primary variables ...) replaced by lattice values or an inner absent value, written and read back by the library\'s own section writers / readers (t2data.write / t2data.read) and by an independent reader: every field as the format carries it, a loud failure only when something did not fit.')
 ASSUMPTIONS = ['read side uses the read-function dictionary each format really uses '
                '(default for data/extra-precision/geometry tables, fortran for initial conditions)',
                'an all-blank string field counts as "nothing" (the library\'s string reader returns the blanks)']
@@ -181,11 +181,93 @@ def file_case(draw):
     return {'k': 'file', 'table': first['table'], 'recs': recs}
 
 
+SPOT_EXCLUDE = ('const_timestep', 'dircos')      # decides how many records follow / an F-format field (range-limited)
+SPOT_EXPS = [-120, -101, -100, -99, -98, -38, -10, -9, -1, 0, 1, 9, 10, 38, 98, 99, 100, 101, 120]
+
+
+def spot_paths(m):
+    """every real-valued place of a generated data model: (section, record index or None, key, list index or None)"""
+    out = []
+
+    def rec(sec, i, r):
+        for k in sorted(r):
+            v = r[k]
+            if k in SPOT_EXCLUDE: continue
+            if sec == 'param' and k == 'timestep' and not (r.get('const_timestep') or 0) < 0: continue     # not a table: const_timestep itself
+            if isinstance(v, float): out.append((sec, i, k, None))
+            elif isinstance(v, list) and v and all(isinstance(x, float) or x is None for x in v) and any(isinstance(x, float) for x in v):
+                out.extend((sec, i, k, j) for j in range(len(v)))
+    for sec in ('rocks', 'blocks', 'connections', 'generators', 'incon', 'indom'):
+        for i, r in enumerate(m.get(sec) or []): rec(sec, i, r)
+    for sec in ('param', 'rpcap', 'selec', 'times', 'lineq', 'solver'):
+        if isinstance(m.get(sec), dict): rec(sec, None, m[sec])
+    return out
+
+
+@st.composite
+def libfile_case(draw):
+    """a generated data model (gens/data.py, every value fits) in which 1..3 real fields - anywhere: rock properties, block
+    volumes, generator tables, time steps, primary variables ... - are replaced by lattice values (both signs, 2- and 3-digit
+    exponents), or one inner primary variable by an absent value; written and read back by the library's own section
+    writers and readers"""
+    from gens import data
+    m = draw(data.model())
+    spots = []
+    for _ in range(draw(st.integers(1, 3))):
+        v = draw(st.sampled_from([1, -1])) * float('%.17ge%d' % (draw(st.sampled_from(MANTISSAS)), draw(st.sampled_from(SPOT_EXPS))))
+        spots.append([draw(st.integers(0, 10 ** 6)), v])
+    if draw(st.integers(0, 3)) == 0: spots.append([draw(st.integers(0, 10 ** 6)), None])
+    return {'k': 'libfile', 'm': m, 'spots': spots}
+
+
+def run_libfile(case, R):
+    import copy
+    from props import c01
+    from gens import data
+    m = copy.deepcopy(case['m'])
+    paths = spot_paths(m)
+    if not paths: R.label('libfile:no-real-field'); return
+    wide = False
+    for sel, v in case['spots']:
+        if v is None:
+            cand = [p for p in paths if p[2] in ('vars', 'default_incons') and p[3] is not None and p[3] % 4 != 3
+                    and p[3] < len((m[p[0]][p[1]] if p[1] is not None else m[p[0]])[p[2]]) - 1]
+            if not cand: continue
+            sec, i, k, j = cand[sel % len(cand)]
+            R.label('libfile:absent-inner-value')
+        else:
+            groups = sorted(set((p[0], p[2]) for p in paths))        # every (section, field) equally often
+            grp = [p for p in paths if (p[0], p[2]) == groups[sel % len(groups)]]
+            sec, i, k, j = grp[(sel // len(groups)) % len(grp)]
+            f = data.FMT.get(sec, {}).get(k, data.P4)
+            xp = m['xp'] != 'off' and sec in data.XP_SECTIONS.values()
+            w, d = (data.XPFMT if xp else f)[-2:]
+            n = len('%.*e' % (d, v))
+            if n > w: wide = True; R.label('libfile:overwide:%s.%s' % (sec, k))
+            elif n == w: R.label('libfile:at-width')
+        r = m[sec][i] if i is not None else m[sec]
+        if j is None: r[k] = v
+        else: r[k][j] = v
+    R.label('libfile:' + ('some-value-too-wide' if wide else 'all-fit'))
+    sub_case = {'k': 'gen', 'm': m, 'legs': 2, 'history': False}
+    before = len(R.findings)
+    try:
+        c01.run_case(sub_case, R)
+    finally:
+        R.is_nontrivial = wide or any(v is None for _s, v in case['spots'])
+    # "fails loudly" is acceptable only when something really did not fit
+    for n, (sig, d) in enumerate(R.findings[before:]):
+        if sig.startswith('exc:write:') and ('ValueError' in sig or 'OverflowError' in sig) and wide:
+            R.findings.pop(before + n); R.label('libfile:write-raised'); break
+    R.findings[before:] = [('libfile:' + sg, d) for sg, d in R.findings[before:]]
+
+
 def searches(tier):
     q = tier == 'quick'
     return [Search('lattice', 'enum', lattice(tier), shards=16),
             Search('whole_records', 'hyp', record_case, n=6000 if q else 200000, shards=4 if q else 16),
-            Search('record_sequences_through_a_file', 'hyp', file_case, n=1500 if q else 40000, shards=4 if q else 16)]
+            Search('record_sequences_through_a_file', 'hyp', file_case, n=1500 if q else 40000, shards=4 if q else 16),
+            Search('library_written_files', 'hyp', libfile_case, n=3200 if q else 40000, shards=8 if q else 16)]
 
 
 def expected_real_forms(v, w, d, typ):
@@ -289,6 +371,7 @@ def run_file(case, R):
 
 def run_case(case, R):
     if case['k'] == 'file': return run_file(case, R)
+    if case['k'] == 'libfile': return run_libfile(case, R)
     tname, kind = case['table'], case['kind']
     p = parser(tname)
     names, fmts = tables()[tname][kind]
